@@ -39,6 +39,13 @@ def run(ctx):
         if cfg == "A":
             c04.reserve_commit(Renamed(ctx, "C04.R4", "C08.R8"), facts)
         c17.r3(Renamed(ctx, "C17.R3", "C08.R9"), facts, cfg)
+        # the drop report is made from a noexcept function: the notifier must be callable when it is called (= C10.R8)
+        from rules import c10
+        c10.r8_notifier_callable(Renamed(ctx, "C10.R8", "C08.R10"), facts, cfg)
+        # statements a dropping queue has accepted are delivered even when their thread has exited: the context is removed only when
+        # its queue and its transit buffer are both empty, whatever the queue type (= C03.R5)
+        from rules import c03
+        c03.r5(Renamed(ctx, "C03.R5", "C08.R11"), facts, cfg)
 
 
 def r1_r2(ctx, facts, cfg):
